@@ -132,7 +132,12 @@ def describe_rv(body, rv, depth=6, at=None):
     if k == 'un':
         return '%s(%s)' % (rv['op'], describe(body, rv['a'], depth - 1, at=at))
     if k == 'discr':
-        return 'discr(%s)' % pretty_place(body, value_origin(body, rv['pl']))
+        vo = value_origin(body, rv['pl'])
+        if not vo['p'] and not (1 <= vo['l'] <= body.arg_count) and body.local_name(vo['l']) is None:
+            d = body.single_def(vo['l'])
+            if d and d[0] == 'call':
+                return 'discr(%s)' % describe(body, {'k': 'copy', 'pl': vo}, depth - 1, at=at)
+        return 'discr(%s)' % pretty_place(body, vo)
     if k == 'agg':
         if rv.get('ak') == 'adt':
             name = '%s::%s' % (rv['adt'], rv['variant'])
